@@ -317,3 +317,99 @@ func (li *LockInfo) EntryLocks(f *ssa.Function) LockSet {
 	}
 	return LockSet{}
 }
+
+// ---- lock order ----
+
+// LockEdge says: while `From` is held (on every path to Site), `To` is acquired, at Site directly or inside the
+// callee Via.
+type LockEdge struct {
+	From, To *types.Var
+	Site     ssa.Instruction
+	Via      *ssa.Function
+}
+
+// LockOrder returns the acquisition-order edges of the program. Locks are identified by struct field (all instances of
+// a type share one node); self edges are dropped. Held sets are must-sets, so every edge is real on some execution
+// that reaches its site.
+func (li *LockInfo) LockOrder() []LockEdge {
+	acq := map[*ssa.Function]map[*types.Var]bool{}
+	var acquires func(f *ssa.Function, depth int) map[*types.Var]bool
+	acquires = func(f *ssa.Function, depth int) map[*types.Var]bool {
+		if m, ok := acq[f]; ok {
+			return m
+		}
+		m := map[*types.Var]bool{}
+		acq[f] = m // cycles see the partial set
+		if f == nil || f.Blocks == nil || depth > 6 {
+			return m
+		}
+		ForEachInstr(f, func(in ssa.Instruction) {
+			if _, isGo := in.(*ssa.Go); isGo {
+				return
+			}
+			if fv, op, ok := MutexOp(in); ok && (op == "Lock" || op == "RLock") {
+				m[fv] = true
+				return
+			}
+			if call, ok := in.(ssa.CallInstruction); ok {
+				if cf := CalleeFn(call); cf != nil && cf.Pkg != nil && IsRepoPkg(cf.Pkg.Pkg.Path()) {
+					for k := range acquires(cf, depth+1) {
+						m[k] = true
+					}
+				}
+				// closures passed to a synchronous runner (PanicToError, Once.Do) or called directly
+				for _, a := range call.Common().Args {
+					if mc, ok := a.(*ssa.MakeClosure); ok {
+						if cf, ok := mc.Fn.(*ssa.Function); ok {
+							for k := range acquires(cf, depth+1) {
+								m[k] = true
+							}
+						}
+					}
+				}
+			}
+		})
+		return m
+	}
+	var out []LockEdge
+	for _, f := range li.p.RepoFuncs() {
+		ForEachInstr(f, func(in ssa.Instruction) {
+			if _, isGo := in.(*ssa.Go); isGo {
+				return
+			}
+			if _, isDefer := in.(*ssa.Defer); isDefer {
+				return // runs at exit, with the exit's lock set; the deferred callee's own body is analysed as a function
+			}
+			held := li.HeldAt(in)
+			if len(held) == 0 {
+				return
+			}
+			if fv, op, ok := MutexOp(in); ok {
+				if op == "Lock" || op == "RLock" {
+					for h := range held {
+						if h != fv {
+							out = append(out, LockEdge{From: h, To: fv, Site: in})
+						}
+					}
+				}
+				return
+			}
+			call, ok := in.(ssa.CallInstruction)
+			if !ok {
+				return
+			}
+			cf := CalleeFn(call)
+			if cf == nil || cf.Pkg == nil || !IsRepoPkg(cf.Pkg.Pkg.Path()) {
+				return
+			}
+			for k := range acquires(cf, 0) {
+				for h := range held {
+					if h != k {
+						out = append(out, LockEdge{From: h, To: k, Site: in, Via: cf})
+					}
+				}
+			}
+		})
+	}
+	return out
+}
